@@ -1,7 +1,14 @@
 from .harness import Mutant, edit_node, stmt_containing, compound_containing, to_pass, sub, is_call
 import ast
 M = 'src/pharmpy/tools/mfl/'
+def text_edit(old, new):
+    def edit(src):
+        return src.replace(old, new, 1) if old in src else None
+    return edit
 MUTANTS = [
+    Mutant('partitions_sort_parts', 'src/pharmpy/internals/set/partitions.py', text_edit("    return sorted(iterable, key=_shortlexkey)", "    return sorted(map(tuple, map(sorted, iterable)), key=_shortlexkey)"), 'G11', 'elements inside parts sorted'),
+    Mutant('partitions_prepend', 'src/pharmpy/internals/set/partitions.py', text_edit("(part + suffix,)", "(suffix + part,)"), 'G11', 'parts in reverse order'),
+    Mutant('peripheral_prev_ignored', 'src/pharmpy/tools/modelsearch/algorithms.py', text_edit(" and n_all[n_index - 1] == max(n_prev)", ""), 'G12', 'previous steps ignored'),
     Mutant('missing_top_handler', M + 'interpreter.py', edit_node('MFLInterpreter', lambda n, seg: isinstance(n, ast.FunctionDef) and n.name == 'lagtime', lambda seg: seg.replace('def lagtime', 'def lagtime_', 1)), 'G1', 'no handler for lagtime'),
     Mutant('missing_mode_handler', M + 'statement/feature/transits.py', edit_node('TransitsInterpreter', lambda n, seg: isinstance(n, ast.FunctionDef) and n.name == 'depot_modes', lambda seg: seg.replace('def depot_modes', 'def depot_mode', 1)), 'G1', 'depot_modes falls to the default handler'),
     Mutant('wildcard_const_short', M + 'statement/feature/absorption.py', edit_node('', lambda n, seg: isinstance(n, ast.Tuple) and seg == "('FO', 'ZO', 'SEQ-ZO-FO', 'INST')", lambda seg: "('FO', 'ZO', 'SEQ-ZO-FO')"), 'G2', 'wildcard misses a mode'),
